@@ -28,7 +28,7 @@ import (
 func vc01Specs() []vfxSpec {
 	seed := vh.Seed()
 	a := vfxDefaultSpec("c01a", 0+7, seed)
-	a.NumSlots, a.MaxTx, a.BigObjects = 60, 3, true
+	a.NumSlots, a.MaxTx, a.BigObjects, a.Boundary, a.ZeroTimes, a.MultiSig = 60, 3, true, true, true, true
 	b := vfxDefaultSpec("c01b", 123, seed+1)
 	b.NumSlots, b.FrameSize, b.FanOut, b.LongHeader, b.Rewards, b.FirstRel = 50, 70, 3, true, true, 1000
 	c := vfxDefaultSpec("c01c", 1, seed+2)
